@@ -142,7 +142,7 @@ class DetachedServer(ServerBase):
 
             elif msg == RuntimeMessage.CANCEL:
                 request = cast(uuid.UUID, payload)
-                self.handle_cancel_comp_task(request)
+                self.handle_cancel_comp_task(request, conn)
 
             else:
                 raise RuntimeError(f'Unexpected message type: {msg.name}')
@@ -320,6 +320,7 @@ class DetachedServer(ServerBase):
             # This task is unknown to the system
             m = (conn, RuntimeMessage.STATUS, CompilationStatus.UNKNOWN)
             self.outgoing.put(m)
+            return
 
         # Get the mailbox associated with this task.
         mailbox_id = self.tasks[request][0]
@@ -329,8 +330,24 @@ class DetachedServer(ServerBase):
         s = CompilationStatus.DONE if box.ready else CompilationStatus.RUNNING
         self.outgoing.put((conn, RuntimeMessage.STATUS, s))
 
-    def handle_cancel_comp_task(self, request: uuid.UUID) -> None:
-        """Cancel a compilation task in the system."""
+    def handle_cancel_comp_task(
+        self,
+        request: uuid.UUID,
+        conn: Connection | None = None,
+    ) -> None:
+        """
+        Cancel a compilation task in the system.
+
+        If `conn` is given, the cancel was requested by that client; only
+        active tasks owned by that client are cancelled.
+        """
+        if conn is not None:
+            if request not in self.clients[conn] or request not in self.tasks:
+                # Unknown, finished, already cancelled, or another client's
+                # task: nothing to cancel, just acknowledge the request.
+                self.outgoing.put((conn, RuntimeMessage.CANCEL, None))
+                return
+
         _logger.info(f'Cancelling: {request}.')
 
         # Remove task from server data
